@@ -358,6 +358,27 @@ impl<T: CellT + std::hash::Hash> Machine<T> {
                 self.held.extend(items);
                 if dead { json!({"k": "ids", "v": v, "dead_on_arrival": true}) } else { json!({"k": "ids", "v": v}) }
             }
+            "d_fold" | "d_rfold" => {
+                // every remaining item goes to a caller-supplied closure (fault site "closure"), which keeps it
+                let fwd = op == "d_fold";
+                let h = std::mem::replace(&mut self.handle, Handle::None);
+                let held = &mut self.held;
+                let start = held.len();
+                let mut f = |(): (), e: T| {
+                    crate::fault::tick(crate::fault::Site::Closure);
+                    held.push(e);
+                };
+                match h {
+                    Handle::Row(d) => if fwd { d.fold((), &mut f) } else { d.rfold((), &mut f) },
+                    Handle::Col(d) => if fwd { d.fold((), &mut f) } else { d.rfold((), &mut f) },
+                    Handle::Into(d) => if fwd { d.fold((), &mut f) } else { d.rfold((), &mut f) },
+                    Handle::None => panic!("harness: no handle"),
+                };
+                let got = &self.held[start..];
+                let dead = T::TRACKED && got.iter().any(|e| !(e.magic_ok() && ledger::is_live(e.serial()) == Some(true)));
+                let v = origins_of(got);
+                if dead { json!({"k": "ids", "v": v, "dead_on_arrival": true}) } else { json!({"k": "ids", "v": v}) }
+            }
             "d_drop" => {
                 self.handle = Handle::None;
                 res_unit()
@@ -572,7 +593,7 @@ impl<T: CellT + std::hash::Hash> Machine<T> {
                     notes.insert("hash_differs".into(), json!(true));
                 }
                 let ids = origins_of(c.data());
-                if T::TRACKED {
+                if T::HAS_SERIAL {
                     let mine: HashSet<u64> = arr.data().iter().map(|e| e.serial()).collect();
                     if c.data().iter().any(|e| mine.contains(&e.serial())) {
                         notes.insert("shares_elements".into(), json!(true));
@@ -606,6 +627,14 @@ impl<T: CellT + std::hash::Hash> Machine<T> {
                 let mut r = json!({"k": "ids", "v": ids});
                 if !ok {
                     r["notes"] = json!({"dims": [t.num_cols(), t.num_rows()], "len": t.data().len()});
+                }
+                // the new array is made of CLONES: none of its elements is one of the window's (a bitwise copy of a
+                // Clone-but-not-Copy value is a second owner of the same thing)
+                if T::HAS_SERIAL {
+                    let mine: HashSet<u64> = arr.data().iter().map(|e| e.serial()).collect();
+                    if t.data().iter().any(|e| mine.contains(&e.serial())) {
+                        r["notes"] = json!({"shares_elements": true});
+                    }
                 }
                 r
             }
